@@ -186,8 +186,12 @@ pub fn gen_ops(rng: &mut Rng, bytes: &[u8], m: &Model, max_ops: usize) -> Vec<Op
                 } else {
                     let n = rng.pick(&names).clone();
                     match rng.below(4) {
-                        0 if n.len() > 1 => n[..n.len() - 1].to_string(),
-                        1 if n.len() > 1 => n[1..].to_string(),
+                        0 if n.chars().count() > 1 => {
+                            let mut c: Vec<char> = n.chars().collect();
+                            c.pop();
+                            c.into_iter().collect()
+                        }
+                        1 if n.chars().count() > 1 => n.chars().skip(1).collect(),
                         _ => n,
                     }
                 };
@@ -214,7 +218,7 @@ pub fn gen_ops(rng: &mut Rng, bytes: &[u8], m: &Model, max_ops: usize) -> Vec<Op
                         v
                     }
                 } else {
-                    match rng.below(6) {
+                    match rng.below(16) {
                         0 => Op::AsStrtab(s),
                         1 => Op::AsNotes(s),
                         2 => Op::AsRels(s),
